@@ -175,6 +175,7 @@ type pathCtx struct {
 	fmtSeq    int
 	fmtArgs   map[string][]value
 	counters  map[string]int
+	fifos     map[string]*fifoState
 }
 
 func NewExplorer(cfg Config, ld *Loaded) *Explorer {
